@@ -46,3 +46,53 @@ package openapi3
 //@   modifies nothing
 //@   ensures [verdict] (result == nil) <==> validNumber(schema, value)
 //@   tag C01 C10 C12
+
+// ---- strings: type, minLength/maxLength (in code points), pattern ----
+// The pattern semantics are those of the default engine (Go's regexp applied to the rewritten
+// pattern); custom RegexCompilerFuncs are outside the proof (scope assumptions below).
+//@ spec intoGo(re string) string
+//@ spec matches(pattern string, s string) bool := goMatches(intoGo(pattern), s)
+//@ spec compiles(pattern string) bool := compilesGo(intoGo(pattern))
+//@ spec customFor(m RegexMatcher, pattern string) bool
+//@ spec matcherFor(m RegexMatcher, pattern string) bool :=
+//@     typeof(m) == type *regexp.Regexp ? (m.(*regexp.Regexp) != nil && goSource(m.(*regexp.Regexp)) == intoGo(pattern)) : customFor(m, pattern)
+//@ iface (RegexMatcher).MatchString (self, s)
+//@   pure
+//@   ensures typeof(self) == type *regexp.Regexp && self.(*regexp.Regexp) != nil ==> result == goMatches(goSource(self.(*regexp.Regexp)), s)
+//@   ensures forall k string :: typeof(self) != type *regexp.Regexp && customFor(self, k) ==> result == matches(k, s)
+//@ fnfield RegexCompilerFunc (expr)
+
+// The process-wide cache of compiled patterns: every stored matcher is a matcher for its key.
+// Load may rely on it because every write site (CompareAndSwap below) establishes it.
+//@ trusted func (*sync.Map).Load (m, key)
+//@   pure
+//@   ensures result.0 != nil && typeof(key) == type string ==> matcherFor(result.0.(RegexMatcher), key.(string))
+//@ trusted func (*sync.Map).CompareAndSwap (m, key, old, new)
+//@   requires new != nil && typeof(key) == type string ==> matcherFor(new.(RegexMatcher), key.(string))
+
+//@ func intoGoRegexp
+//@   modifies nothing
+//@   defines result == intoGo(re)
+
+//@ func (*Schema).compilePattern
+//@   requires schema != nil
+//@   assuming c == nil
+//@   modifies nothing
+//@   ensures (result.1 == nil) <==> compiles(schema.Pattern)
+//@   ensures result.1 == nil ==> result.0 != nil && matcherFor(result.0, schema.Pattern)
+//@   tag C01 C10
+
+//@ spec validString(s *Schema, x string) bool :=
+//@     permits(s.Type, "string")
+//@  && s.MinLength <= runes(x)
+//@  && (s.MaxLength != nil ==> runes(x) <= *s.MaxLength)
+//@  && (s.Pattern != "" ==> matches(s.Pattern, x))
+
+//@ func (*Schema).visitJSONString
+//@   requires schema != nil && settings != nil
+//@   assuming schema.Format == "" && !settings.patternValidationDisabled && settings.regexCompiler == nil
+//@   assuming schema.Pattern != "" ==> compiles(schema.Pattern)
+//@   modifies nothing
+//@   loop 0 invariant length == runesPrefix(value, #pos) && 0 <= length && length <= #pos
+//@   ensures [verdict] (result == nil) <==> validString(schema, value)
+//@   tag C01 C10 C12
